@@ -178,8 +178,8 @@ def finish_log(tbl, raw):
     return [emap[k] if k in emap else ("?" + k[1], k[2] if len(k) > 2 else None) for k in raw]
 
 
-def g_table(idx):
-    tbl = build_table(idx, [])
+def g_table(idx, tbl=None):
+    tbl = build_table(idx, []) if tbl is None else tbl
     items = []
     for mount, obj in tbl.items():
         attrs = []
@@ -1219,6 +1219,172 @@ def inspector_stage(chk, jsonrpc):
         chk.obligation(f"corr:{name}", "correspondence", ok)
 
 
+# ----------------------------------------------------------------------------
+# sequences of requests on ONE wrapper whose mounts change in between
+
+
+def expected_dynamic(objects, method):
+    """What the property requires of a conforming request on the mount table as it is NOW."""
+    def behaviour(name):
+        return {"te": -32602, "te_bad": (-32602, 0), "oth": 0, "oth_bad": 0, "uns": 0}.get(name, "result")
+
+    if callable(objects.get(method)):
+        return behaviour(method.rsplit(".", 1)[-1])
+    if "." not in method:
+        return -32601
+    mount, name = method.rsplit(".", 1)
+    if name.startswith("_") or mount not in objects:
+        return -32601
+    sentinel = object()
+    v = getattr(objects[mount], name, sentinel)
+    if v is sentinel:
+        return -32601
+    if not callable(v):
+        return -32602
+    return behaviour("pub" if name == "helper" else name)
+
+
+def sequence_stage(chk, jsonrpc):
+    """One Wrapper, many requests, the mount table mutated between them: a mount removed, replaced
+    by another object, added; an attribute of a mounted object deleted, shadowed by a non-callable
+    or replaced; wrapper.objects rebound to a new dict.  Every answer must be the one the table
+    AS IT IS NOW requires, and only callables of the current table may be invoked (a callable that
+    was valid earlier is not)."""
+    rng = vlib.Rng(chk.seed, "C07-sequence")
+    rows = []
+    n_seq = 60 if chk.tier == "quick" else 700
+    counter = [0]
+
+    def fresh(kind, mount, raw):
+        counter[0] += 1
+        label = f"{mount}#{counter[0]}"
+        if kind == "rec":
+            return Rec(label, raw, depth=1)
+        if kind == "plain":
+            return Plain(label, raw)
+        fn = mk_callable(mount, raw)
+        fn._rec_key = ("f", label)
+        inner_log_key = fn._rec_key
+
+        def recorded(*a, **k):
+            n = len(raw)
+            raw.append(inner_log_key)
+            return behave(mount.rsplit(".", 1)[-1], n, a, k)
+
+        recorded._rec_key = inner_log_key
+        return recorded
+
+    directed = [
+        [("call", "o.pub"), ("remove", "o"), ("call", "o.pub"), ("call", "o.count")],
+        [("call", "f"), ("replace", "f", "fn"), ("call", "f"), ("replace", "f", "plain"), ("call", "f")],
+        [("call", "o.helper"), ("delattr", "o", "helper"), ("call", "o.helper"), ("call", "o.pub")],
+        [("call", "o.pub"), ("shadow", "o", "pub"), ("call", "o.pub"), ("call", "o.count")],
+        [("call", "o.count"), ("replace", "o", "rec"), ("call", "o.count"), ("call", "o.pub")],
+        [("call", "core.x.nargs"), ("rebind",), ("call", "core.x.nargs"), ("call", "o.pub")],
+        [("call", "x.pub"), ("add", "x", "rec"), ("call", "x.pub"), ("remove", "x"), ("call", "x.pub")],
+        [("call", "o.pub"), ("replace", "o", "fn"), ("call", "o.pub"), ("call", "o")],
+        [("call", "o.te"), ("call", "o.te"), ("remove", "o"), ("call", "o.te")],
+    ]
+    for s_idx in range(len(directed) + n_seq):
+        raw = []
+        objects = {"o": Rec("o", raw, depth=1), "core.x": Rec("core.x", raw, depth=1), "f": mk_callable("f", raw)}
+        w = jsonrpc.Wrapper(objects=objects)
+        if s_idx < len(directed):
+            steps = directed[s_idx]
+        else:
+            steps = []
+            for _ in range(rng.randint(3, 9)):
+                mounts_now = ["o", "core.x", "f", "x"]
+                k = rng.weighted([("call", 6), ("remove", 1), ("replace", 2), ("add", 1), ("delattr", 1), ("shadow", 1), ("rebind", 0.5)])
+                m = rng.choice(mounts_now)
+                if k == "call":
+                    steps.append(("call", rng.choice([f"{m}.{a}" for a in ("pub", "count", "nargs", "te", "helper", "uns", "attr")] + [m, "f"])))
+                elif k in ("replace", "add"):
+                    steps.append((k, m, rng.choice(["rec", "fn", "plain"])))
+                elif k == "delattr":
+                    steps.append((k, m, rng.choice(["helper", "buddy", "child"])))
+                elif k == "shadow":
+                    steps.append((k, m, rng.choice(["pub", "count", "helper"])))
+                else:
+                    steps.append((k, m) if k == "remove" else (k,))
+        history = []
+        for step in steps:
+            op = step[0]
+            objects = w.objects
+            if op == "remove":
+                objects.pop(step[1], None)
+            elif op in ("replace", "add"):
+                objects[step[1]] = fresh(step[2], step[1], raw)
+            elif op == "delattr":
+                try:
+                    delattr(objects.get(step[1]), step[2])
+                except (AttributeError, TypeError):
+                    pass
+            elif op == "shadow":
+                if isinstance(objects.get(step[1]), Rec):
+                    setattr(objects[step[1]], step[2], 5)
+            elif op == "rebind":
+                w.objects = dict(objects)
+                w.objects["core.x"] = fresh("rec", "core.x", raw)
+            history.append(list(step))
+            if op != "call":
+                continue
+            method = step[1]
+            notification = rng.random() < 0.25 and s_idx >= len(directed)
+            req = {"jsonrpc": "2.0", "method": method, "params": [1]} if notification else {"jsonrpc": "2.0", "id": len(history), "method": method}
+            data = enc(req).encode("utf-8")
+            raw.clear()
+            objects = w.objects
+            case = {"sequence": [list(h) for h in history], "request": req, "text": data.decode(), "mounts_now": sorted(objects)}
+            try:
+                out = w.handle_json(data)
+                outcome = ("nothing",) if out is None else ("bytes", bytes(out))
+            except Exception as exc:  # noqa: BLE001
+                chk.monitor_failure("no_exception", {"exc": type(exc).__name__, "cause": "sequence"}, f"handle_json raised {exc!r}", case)
+                continue
+            log = finish_log(objects, list(raw))
+            chk.count(1, nontrivial_key="seq:" + json.dumps(history))
+            chk.dist("sequence:step_after_" + (history[-2][0] if len(history) > 1 else "start"))
+            for e in log:
+                if not is_public_entry(objects, e):
+                    chk.monitor_failure("only_public", {"entry": "stale_or_unmounted", "after": history[-2][0] if len(history) > 1 else "start"},
+                                        f"invoked {e}, which is not a public callable of the mount table as it is now", case)
+            want = expected_dynamic(objects, method)
+            if notification:
+                if outcome[0] != "nothing":
+                    chk.monitor_failure("classification", {"class": "notification", "stage": "sequence"}, "notification was answered", case)
+                if want == -32601 and log:
+                    chk.monitor_failure("only_public", {"entry": "stale_or_unmounted", "after": "notification"},
+                                        "a method that is not found now was invoked by a notification", case)
+            else:
+                try:
+                    r = parse_response(outcome[1])
+                    got = "result" if "result" in r else r["error"]["code"]
+                except Exception:  # noqa: BLE001
+                    got = "unparseable"
+                if got not in (want if isinstance(want, tuple) else (want,)):
+                    chk.monitor_failure("classification", {"class": "sequence", "want": want, "got": got,
+                                                           "after": history[-2][0] if len(history) > 1 else "start"},
+                                        f"after {history[-2] if len(history) > 1 else 'start'} the request was answered by {got}, "
+                                        f"the mount table now requires {want}", case)
+            parsed_ok, parsed = parse_oracle(data)
+            rows.append((case, f"({g_table(0, objects)}, Parsed {g_json(parsed)}, {g_outcome(outcome, chk, case)}, {g_log(log)})"))
+    shards = [rows[i: i + 100] for i in range(0, len(rows), 100)]
+    results = rc.run_shards(vlib, AREA, HEADER, "case", [[r[1] for r in sh] for sh in shards], [f"case_ok {MODEL_VERSION}", "log_public_ok"], jobs=12)
+    ok = True
+    for shard, (lists, log_text) in zip(shards, results):
+        if lists is None:
+            ok = False
+            chk.corr_failure("sequence", {"shard": "coq evaluation failed"}, log_text[-1500:])
+            continue
+        for i in lists[0]:
+            ok = False
+            chk.corr_failure("sequence", shard[i][0])
+        for i in lists[1]:
+            chk.monitor_failure("only_public", {"entry": "gallina", "stage": "sequence"}, "public_entry_b (Gallina) rejects an invocation", shard[i][0])
+    chk.obligation("corr:sequence", "correspondence", ok)
+
+
 def search_hook(jsonrpc):
     """Directed search after a tie break: mutate the disagreeing request and look for an
     input on which a monitor (the property predicate) fails."""
@@ -1285,3 +1451,4 @@ def run(chk):
     wrapper_stage(chk, jsonrpc)
     handler_stage(chk, jsonrpc)
     inspector_stage(chk, jsonrpc)
+    sequence_stage(chk, jsonrpc)
